@@ -1,11 +1,13 @@
 import NanoVerif.Model.Proto
 import NanoVerif.Model.Objective
+import NanoVerif.Model.ObjectiveIter
+import NanoVerif.Model.IteratorSelect
 /-!
   driver family `objective` (C09): one self-contained op per line.
 
   Augmented op (written by harness/c09.cpp):
     `<kind> <seed> <N> <feats…> <tkind> <tdim> <miss%> <loss> <l1> <l2> <scaling> <a> <b> <smode> <pmag> <groups> <unassigned%>
-     <V> {threads batch cached}×V | n s t d X T P L G SO WO GR V {workers batch asg}×V`
+     <V> {threads batch cached}×V | n s t d X T P L G SO WO GR V {workers batch asg}×V raw <eps> <hi> <lo> <enF> <enT> <RX> <RT>`
   with `kind ∈ {linear, bias, scale, grads}` and, after the bar, what the implementation served / used:
     `n s t d`  number of samples of the iterator, flattened input columns, target size, size of the parameter vector;
     `X` (n·s) flattened scaled inputs, `T` (n·t) scaled targets, `P` (d) the parameter vector,
@@ -13,13 +15,19 @@ import NanoVerif.Model.Objective
     reference outputs, `SO`/`WO` (n·t) strong / weak learner outputs of the samples and `GR` (n) their groups (scale only),
     and for every (threads, batch, cached) variant the pool size, the batch and the worker that executed each chunk.
 
-  Result: `ok V {fx ngrad grad…}×V def fx ngrad grad…` — the modelled computation (chunks, observed assignment, per-worker
+  Result: `ok V {fx0 fx ngrad grad…}×V def fx ngrad grad…` (`fx0`: the value-only call `vgrad(x)`) — the modelled computation (chunks, observed assignment, per-worker
   accumulators, `sum_reduce`, normalisation, regularisation) for every variant, then the naive definition, both at `Float`.
   For the losses `mse` and `mae` the model evaluates its own kernels on its own outputs (`predict`, `scaleOutput`);
   for the other losses `L i o` / `dL i o` are the dumped per-sample values.
+
+  The inputs `x` and targets the model computes with are NOT the dumped `X` / `T` (what the implementation served): they are
+  obtained from the RAW data after `raw` by running the iterator model (`Model/Iterator.lean`: statistics in batches of 1000,
+  `batch(n)`, `scaling(mode)`, one loop) — the end-to-end reading of the property (`linear_end_to_end` …).
+
+  Family `iter` (`handleIter` below): histories on one iterator object, see harness/c09.cpp `run_iter`.
 -/
 namespace NanoVerif.Driver.Objective
-open NanoVerif.Proto NanoVerif.Objective
+open NanoVerif.Proto NanoVerif.Objective NanoVerif.Iterator NanoVerif.Scaling
 
 local instance : NatCast Float := ⟨Float.ofNat⟩
 
@@ -37,6 +45,15 @@ structure Dump where
   WO : Array Float
   GR : Array Int
   variants : List (Nat × Nat × List Nat)   -- workers, batch, asg
+  eps : Float
+  hi : Float
+  lo : Float
+  enF : List Nat
+  enT : List Nat
+  RX : Array Float
+  RT : Array Float
+  mode : Mode := .none                 -- the op's scaling (filled by `handle`)
+  cached : List Bool := []             -- the op's `cached` flag per variant (filled by `handle`)
 
 def pVariant : P (Nat × Nat × List Nat) := fun ts => do
   let (w, ts) ← pNat ts
@@ -58,9 +75,46 @@ def pDump (ts : Toks) : Option Dump := do
   let (WO, ts) ← pList pFloat ts
   let (GR, ts) ← pList pInt ts
   let (vs, ts) ← pList pVariant ts
+  let (tag, ts) ← pStr ts
+  guard (tag = "raw")
+  let (eps, ts) ← pFloat ts
+  let (hi, ts) ← pFloat ts
+  let (lo, ts) ← pFloat ts
+  let (enF, ts) ← pList pNat ts
+  let (enT, ts) ← pList pNat ts
+  let (RX, ts) ← pList pFloat ts
+  let (RT, ts) ← pList pFloat ts
   guard ts.isEmpty
   guard (T.length = n * t ∧ L.length = n ∧ G.length = n * t ∧ Pv.length = d)
-  pure ⟨n, s, t, d, X.toArray, T.toArray, Pv.toArray, L.toArray, G.toArray, SO.toArray, WO.toArray, GR.toArray, vs⟩
+  guard (enF.length = s ∧ enT.length = t ∧ RX.length = n * s ∧ RT.length = n * t)
+  pure ⟨n, s, t, d, X.toArray, T.toArray, Pv.toArray, L.toArray, G.toArray, SO.toArray, WO.toArray, GR.toArray, vs,
+    eps, hi, lo, enF, enT, RX.toArray, RT.toArray, .none, []⟩
+
+def cell (x : Float) : Option Float := if x.isFinite then some x else none
+
+/-- the rows of a row-major `n × k` matrix as cells -/
+def rowsOf (a : Array Float) (n k : Nat) : Array (List (Option Float)) :=
+  Array.ofFn (n := n) fun i => (List.range k).map fun j => cell (a.getD (i.val * k + j) (0.0 / 0.0))
+
+/-- the dataset of the op as the iterator model sees it: position `i` of the dump is "stored sample" `i` -/
+def dataOf (n s t : Nat) (enF enT : List Nat) (RX RT : Array Float) : Data Float :=
+  let fr := rowsOf RX n s
+  let tr := rowsOf RT n t
+  ⟨fun i => fr.getD i [], fun i => tr.getD i [], enF.map (· != 0), enT.map (· != 0)⟩
+
+/-- what the iterator model serves in the reference configuration (1 worker, `batch(n)`, `scaling(mode)`, no cache):
+    the scaled inputs and targets, row-major -/
+def modelServed (D : Dump) (mode : Mode) : Option (Array Float × Array Float) := do
+  let data := dataOf D.n D.s D.t D.enF D.enT D.RX D.RT
+  let it := ((Iter.make D.hi D.lo D.eps data (List.range D.n) 1 1000 1000).setBatch (max D.n 1)).setScaling mode
+  let served ← it.loopFT data (if D.n = 0 then [] else [0])
+  pure (((served.map Served.inputs).flatten.flatten).toArray, ((served.map Served.targets).flatten.flatten).toArray)
+
+/-- the dump with `X` / `T` replaced by what the iterator MODEL serves from the raw data -/
+def Dump.fromRaw (D : Dump) (mode : Mode) : Option Dump := do
+  let (X, T) ← modelServed D mode
+  guard (X.size = D.n * D.s ∧ T.size = D.n * D.t)
+  pure { D with X := X, T := T }
 
 def row (a : Array Float) (t i : Nat) : Vector Float t := Vector.ofFn fun k => a.getD (i * t + k.val) 0
 
@@ -75,20 +129,59 @@ def lossDL (loss : String) (D : Dump) (i : Nat) (o : Vector Float D.t) : Vector 
   else if loss = "mae" then maeGrad (row D.T D.t i) o
   else row D.G D.t i
 
+/-! ### the END-TO-END model functions (`*VGradIter`: the objective wired to the iterator object) run on small cases
+
+  For `mse` / `mae` (the two losses with a kernel in the model) and `n·(s+t) ≤ 600` the variant is ALSO computed by the
+  end-to-end function on the iterator object configured like the implementation's (`batch`, `scaling`, and
+  `cache_flatten` + `cache_targets` when the variant is cached), from the RAW data; the two model results must be bit-identical
+  (`served_bit_identical_float`), otherwise the op is answered `bad-op`. -/
+
+def lossT (loss : String) (t : Nat) (tg : List Float) (o : Vector Float t) : Float :=
+  let tv : Vector Float t := Vector.ofFn fun k => tg.getD k.val 0
+  if loss = "mse" then mseValue tv o else maeValue tv o
+
+def dlossT (loss : String) (t : Nat) (tg : List Float) (o : Vector Float t) : Vector Float t :=
+  let tv : Vector Float t := Vector.ofFn fun k => tg.getD k.val 0
+  if loss = "mse" then mseGrad tv o else maeGrad tv o
+
+def smallEnough (loss : String) (D : Dump) : Bool := (loss = "mse" || loss = "mae") && D.n * (D.s + D.t) ≤ 600
+
+/-- the iterator object of a variant: constructor, `batch(b)`, `scaling(mode)`, and the two cache calls when cached (the cache
+    fillers' chunks all by worker 0: their schedule is not observed for this family) -/
+def iterOf (D : Dump) (workers batch : Nat) (cached : Bool) : Option (Iter Float × Data Float) := do
+  let data := dataOf D.n D.s D.t D.enF D.enT D.RX D.RT
+  let it := ((Iter.make D.hi D.lo D.eps data (List.range D.n) workers 1000 1000).setBatch batch).setScaling D.mode
+  if cached then
+    let zeros := List.replicate (chunks D.n batch).length 0
+    let (it, okF) ← it.cacheFlatten data (1 <<< 62) zeros []
+    let (it, okT) ← it.cacheTargets data (1 <<< 62) zeros []
+    guard (okF ∧ okT)
+    pure (it, data)
+  else pure (it, data)
+
+def sameBits (a b : List Float) : Bool := a.map hexOfFloat == b.map hexOfFloat
+
 def showVG (fx : Float) (g : List Float) : String := s!"{hexOfFloat fx} {showFloats g}"
+/-- value-only call, then value + gradient -/
+def showVVG (fx0 fx : Float) (g : List Float) : String := s!"{hexOfFloat fx0} {hexOfFloat fx} {showFloats g}"
 
 def handleLinear (loss : String) (l1 l2 : Float) (D : Dump) : Option String := do
-  guard (D.d = D.t * D.s + D.t ∧ D.X.size = D.n * D.s)
+  guard (D.d = linearSize D.s D.t ∧ D.X.size = D.n * D.s ∧ 0 < D.s ∧ 0 < D.t)
   let t := D.t
   let s := D.s
-  let W : Nat → Nat → Float := fun k j => D.P.getD (k * s + j) 0
-  let b : Nat → Float := fun k => D.P.getD (t * s + k) 0
+  let W : Nat → Nat → Float := unpackW D.P s          -- weights(x)
+  let b : Nat → Float := unpackB D.P t s              -- bias(x)
   let x : Nat → Nat → Float := fun i j => D.X.getD (i * s + j) 0
   let L := lossL loss D
   let dL := lossDL loss D
-  let outs ← D.variants.mapM fun (workers, batch, asg) => do
+  let outs ← (D.variants.zip D.cached).mapM fun ((workers, batch, asg), cached) => do
     let out ← linearVGrad (t := t) (s := s) Float.sqrt l1 l2 W b L dL x workers D.n batch asg
-    pure (showVG out.fx (out.gW.toList ++ out.gb.toList))
+    let fx0 ← linearValue (t := t) (s := s) Float.sqrt l1 l2 W b L x workers D.n batch asg     -- `gx.size() == 0`
+    if smallEnough loss D then
+      let (it, data) ← iterOf D workers batch cached
+      let e2e ← linearVGradIter (t := t) (s := s) Float.sqrt l1 l2 W b (lossT loss t) (dlossT loss t) it data asg
+      guard (sameBits (e2e.fx :: e2e.gW.toList ++ e2e.gb.toList) (out.fx :: out.gW.toList ++ out.gb.toList))
+    pure (showVVG fx0 out.fx (out.gW.toList ++ out.gb.toList))
   let dv := linearDefValue t s l1 l2 W b L x D.n
   let dgW := (List.range (t * s)).filterMap fun idx =>
     if h : idx / s < t then some (linearDefGradW t s l1 l2 W b dL x D.n ⟨idx / s, h⟩ (idx % s)) else none
@@ -100,9 +193,13 @@ def handleBias (loss : String) (D : Dump) : Option String := do
   let x : Vector Float D.t := row D.P D.t 0
   let L := lossL loss D
   let dL := lossDL loss D
-  let outs ← D.variants.mapM fun (workers, batch, asg) => do
+  let outs ← (D.variants.zip D.cached).mapM fun ((workers, batch, asg), cached) => do
     let (fx, g) ← biasVGrad L dL x workers D.n batch asg
-    pure (showVG fx g.toList)
+    if smallEnough loss D then
+      let (it, data) ← iterOf D workers batch cached
+      let (fx', g') ← biasVGradIter (lossT loss D.t) (dlossT loss D.t) x it data asg
+      guard (sameBits (fx' :: g'.toList) (fx :: g.toList))
+    pure (showVVG fx fx g.toList)      -- `accumulator_t::vgrad(gx)` returns `m_vm1` with or without `gx`
   let dg := (List.finRange D.t).map fun k => biasDefGrad dL x D.n k
   pure s!"ok {outs.length} {String.intercalate " " outs} def {showVG (biasDefValue L x D.n) dg}"
 
@@ -114,9 +211,13 @@ def handleScale (loss : String) (D : Dump) : Option String := do
   let wo := row D.WO D.t
   let L := lossL loss D
   let dL := lossDL loss D
-  let outs ← D.variants.mapM fun (workers, batch, asg) => do
+  let outs ← (D.variants.zip D.cached).mapM fun ((workers, batch, asg), cached) => do
     let (fx, g) ← scaleVGrad L dL x grp so wo workers D.n batch asg
-    pure (showVG fx g.toList)
+    if smallEnough loss D then
+      let (it, data) ← iterOf D workers batch cached
+      let (fx', g') ← scaleVGradIter (lossT loss D.t) (dlossT loss D.t) x grp so wo it data asg
+      guard (sameBits (fx' :: g'.toList) (fx :: g.toList))
+    pure (showVVG fx fx g.toList)
   let dg := (List.range D.d).map fun q => scaleDefGrad dL x grp so wo D.n q
   pure s!"ok {outs.length} {String.intercalate " " outs} def {showVG (scaleDefValue L x grp so wo D.n) dg}"
 
@@ -129,9 +230,13 @@ def handleGrads (loss : String) (D : Dump) : Option String := do
   let nan : Float := 0.0 / 0.0
   let values0 := List.replicate D.n nan
   let vgrads0 : List (Vector Float D.t) := List.replicate D.n (Vector.replicate D.t nan)
-  let outs ← D.variants.mapM fun (_, batch, _) => do
+  let outs ← (D.variants.zip D.cached).mapM fun ((workers, batch, asg), cached) => do
     let (fx, g) ← gradsVGrad L dL o values0 vgrads0 D.n batch
-    pure (showVG fx (g.flatMap fun v => v.toList))
+    if smallEnough loss D then
+      let (it, data) ← iterOf D workers batch cached
+      let (fx', g') ← gradsVGradIter (lossT loss D.t) (dlossT loss D.t) o values0 vgrads0 it data asg
+      guard (sameBits (fx' :: g'.flatMap fun v => v.toList) (fx :: g.flatMap fun v => v.toList))
+    pure (showVVG fx fx (g.flatMap fun v => v.toList))
   let (dv, dg) := gradsDef L dL o D.n
   pure s!"ok {outs.length} {String.intercalate " " outs} def {showVG dv (dg.flatMap fun v => v.toList)}"
 
@@ -149,13 +254,197 @@ def handle (ts : Toks) : Option String := do
   let (_miss, hs) ← pNat hs
   let (loss, hs) ← pStr hs
   let (l1, hs) ← pFloat hs
-  let (l2, _) ← pFloat hs
-  let D ← pDump dumpToks
+  let (l2, hs) ← pFloat hs
+  let (sc, hs) ← pNat hs
+  let mode ← Mode.ofNat? sc
+  let (_a, hs) ← pNat hs
+  let (_b, hs) ← pNat hs
+  let (_smode, hs) ← pNat hs
+  let (_pmag, hs) ← pFloat hs
+  let (_groups, hs) ← pNat hs
+  let (_unass, hs) ← pNat hs
+  let (cfgs, hs) ← pList (fun ts => do
+    let (_t, ts) ← pNat ts
+    let (_b, ts) ← pNat ts
+    let (c, ts) ← pNat ts
+    pure (c != 0, ts)) hs
+  guard hs.isEmpty
+  let D0 ← pDump dumpToks
+  guard (cfgs.length = D0.variants.length)
+  let D1 ← D0.fromRaw mode
+  let D : Dump := { D1 with mode := mode, cached := cfgs }
   match kind with
   | "linear" => handleLinear loss l1 l2 D
   | "bias" => handleBias loss D
   | "scale" => handleScale loss D
   | "grads" => handleGrads loss D
   | _ => none
+
+/-! ### family `iter`: `hist <seed> <N> <feats> <tkind> <tdim> <miss%> <a> <b> <smode> <threads> <sbF> <sbT> <K> {step}×K
+    | <workers> raw <eps> <hi> <lo> <enF> <enT> <RX> <RT> {<asg>}×K` -/
+
+inductive Step where
+  | cfg (c : Nat → Cfg)          -- B, S
+  | cacheF (mb : Int)
+  | cacheT (mb : Int)
+  | loop (kind : String)
+
+def pSteps : Nat → P (List Step)
+  | 0 => fun ts => some ([], ts)
+  | k + 1 => fun ts => do
+    let (kind, ts) ← pStr ts
+    let (st, ts) ← (match kind with
+      | "B" => do let (b, ts) ← pNat ts; pure (Step.cfg (fun _ => Cfg.batch b), ts)
+      | "S" => do let (m, ts) ← pNat ts; let mode ← Mode.ofNat? m; pure (Step.cfg (fun _ => Cfg.scaling mode), ts)
+      | "CF" => do let (mb, ts) ← pInt ts; pure (Step.cacheF mb, ts)
+      | "CT" => do let (mb, ts) ← pInt ts; pure (Step.cacheT mb, ts)
+      | "L" => pure (Step.loop "L", ts)
+      | "LF" => pure (Step.loop "LF", ts)
+      | "LT" => pure (Step.loop "LT", ts)
+      | _ => none : Option (Step × Toks))
+    let (rest, ts) ← pSteps k ts
+    pure (st :: rest, ts)
+
+def showStats (ss : List (Stats Float)) : String :=
+  let cols := ss.map fun s =>
+    s!"{s.n} {hexOfFloat s.mn} {hexOfFloat s.mx} {hexOfFloat s.mean} {hexOfFloat s.sd} {hexOfFloat s.divRange} {hexOfFloat s.mulRange} {hexOfFloat s.divSd} {hexOfFloat s.mulSd}"
+  String.intercalate " " (toString ss.length :: cols)
+
+/-- how often every position `< n` is covered by the ranges handed to the callback: `(min, max)` -/
+def coverage (n : Nat) (served : List (Served Float)) : Nat × Nat :=
+  let counts := served.foldl (fun (a : Array Nat) c =>
+    (List.range (c.e - c.b)).foldl (fun a k => a.modify (c.b + k) (· + 1)) a) (Array.replicate n 0)
+  if n = 0 then (0, 0) else (counts.foldl min (counts.getD 0 0), counts.foldl max 0)
+
+def showLoop (n : Nat) (served : List (Served Float)) : String :=
+  let bounds := served.flatMap fun c => [c.b, c.e]
+  let (cmin, cmax) := coverage n served
+  let X := (served.map Served.inputs).flatten.flatten
+  let T := (served.map Served.targets).flatten.flatten
+  let nums := String.intercalate " " ((toString served.length :: bounds.map toString) ++ [toString cmin, toString cmax])
+  s!"l {nums} {showFloats X} {showFloats T}"
+
+def runSteps (data : Data Float) : Iter Float → List Step → List (List Nat) → List String → Option (List String)
+  | _, [], [], acc => some acc.reverse
+  | it, st :: steps, asg :: asgs, acc =>
+    match st with
+    | .cfg c => do
+      let it' ← it.step data [] (c 0)
+      runSteps data it' steps asgs acc
+    | .cacheF mb => do
+      let (it', flag) ← it.cacheFlatten data mb asg []
+      runSteps data it' steps asgs (s!"c {if flag then 1 else 0}" :: acc)
+    | .cacheT mb => do
+      let (it', flag) ← it.cacheTargets data mb asg []
+      runSteps data it' steps asgs (s!"c {if flag then 1 else 0}" :: acc)
+    | .loop kind => do
+      let served ← (match kind with
+        | "L" => it.loopFT data asg
+        | "LF" => it.loopF data asg
+        | _ => it.loopT data asg)
+      runSteps data it steps asgs (showLoop it.samples.length served :: acc)
+  | _, _, _, _ => none
+
+def handleIter (ts : Toks) : Option String := do
+  let (head, rest) := ts.span (· ≠ "|")
+  let dumpToks ← match rest with
+    | _ :: r => some r
+    | [] => none
+  let (sub, hs) ← pStr head
+  guard (sub = "hist")
+  let (_seed, hs) ← pNat hs
+  let (_N, hs) ← pNat hs
+  let (_feats, hs) ← pList pNat hs
+  let (_tkind, hs) ← pStr hs
+  let (_tdim, hs) ← pNat hs
+  let (_miss, hs) ← pNat hs
+  let (a, hs) ← pNat hs
+  let (b, hs) ← pNat hs
+  let (_smode, hs) ← pNat hs
+  let (_threads, hs) ← pNat hs
+  let (sbF, hs) ← pNat hs
+  let (sbT, hs) ← pNat hs
+  let (K, hs) ← pNat hs
+  let (steps, hs) ← pSteps K hs
+  guard hs.isEmpty
+  let n := b - a
+  let (workers, ds) ← pNat dumpToks
+  let (tag, ds) ← pStr ds
+  guard (tag = "raw")
+  let (eps, ds) ← pFloat ds
+  let (hi, ds) ← pFloat ds
+  let (lo, ds) ← pFloat ds
+  let (enF, ds) ← pList pNat ds
+  let (enT, ds) ← pList pNat ds
+  let (RX, ds) ← pList pFloat ds
+  let (RT, ds) ← pList pFloat ds
+  let (asgs, ds) ← pMany (pList pNat) K ds
+  guard ds.isEmpty
+  let s := enF.length
+  let t := enT.length
+  guard (RX.length = n * s ∧ RT.length = n * t)
+  let data := dataOf n s t enF enT RX.toArray RT.toArray
+  let samples := List.range n
+  let it := Iter.make hi lo eps data samples workers 1000 1000
+  let direct := [makeStats hi lo eps data.enF data.flat samples sbF, makeStats hi lo eps data.enT data.targ samples sbT]
+  let outs ← runSteps data it steps asgs []
+  let statsS := String.intercalate " " ([it.fstats, it.tstats] ++ direct |>.map showStats)
+  pure (String.intercalate " " ("ok" :: statsS :: outs))
+
+/-! ### family `iter select`: `select <seed> <N> <feats> <tkind> <tdim> <miss%> <a> <b> <smode> <threads> <kind> <mode> …
+    | <workers> <kinds> <asg>` → `ok <ncalls> 0 {<ifeature> <#calls> <#calls>}…` sorted by feature -/
+
+def countCalls (calls : List Call) : List (Nat × Nat) :=
+  let fs := (calls.map Call.ifeature).eraseDups
+  let sorted := fs.toArray.qsort (· < ·) |>.toList
+  sorted.map fun f => (f, (calls.filter fun c => c.ifeature == f).length)
+
+def handleSelect (ts : Toks) : Option String := do
+  let (head, rest) := ts.span (· ≠ "|")
+  let dumpToks ← match rest with
+    | _ :: r => some r
+    | [] => none
+  let (_seed, hs) ← pNat head
+  let (_N, hs) ← pNat hs
+  let (_feats, hs) ← pList pNat hs
+  let (_tkind, hs) ← pStr hs
+  let (_tdim, hs) ← pNat hs
+  let (_miss, hs) ← pNat hs
+  let (_a, hs) ← pNat hs
+  let (_b, hs) ← pNat hs
+  let (_smode, hs) ← pNat hs
+  let (_threads, hs) ← pNat hs
+  let (kindN, hs) ← pNat hs
+  let kind ← FKind.ofNat? kindN
+  let (mode, hs) ← pStr hs
+  let (workers, ds) ← pNat dumpToks
+  let (kindsN, ds) ← pList pNat ds
+  let kinds ← kindsN.mapM FKind.ofNat?
+  let (asg0, ds) ← pList pNat ds
+  guard ds.isEmpty
+  let calls ← (match mode with
+    | "O" => do
+      let (f, hs) ← pNat hs
+      guard hs.isEmpty
+      pure (loopOne f)
+    | "A" => do
+      guard hs.isEmpty
+      let features := makeFeatures kinds kind
+      let nch := (chunks features.length (featuresPerThread features.length workers)).length
+      -- the sequential path of `map` (pool of one thread, or one chunk) pops nothing: every chunk by the caller, tnum 0
+      loopKind kinds kind workers (if asg0.isEmpty then List.replicate nch 0 else asg0)
+    | "L" => do
+      let (features, hs) ← pList pNat hs
+      guard hs.isEmpty
+      let nch := (chunks features.length (featuresPerThread features.length workers)).length
+      loopList features workers (if asg0.isEmpty then List.replicate nch 0 else asg0)
+    | _ => none : Option (List Call))
+  let rows := (countCalls calls).map fun (f, c) => s!"{f} {c} {c}"
+  pure (String.intercalate " " (["ok", toString calls.length, "0"] ++ rows))
+
+def handleIterAll (ts : Toks) : Option String :=
+  match ts with
+  | "select" :: rest => handleSelect rest
+  | _ => handleIter ts
 
 end NanoVerif.Driver.Objective
